@@ -2,7 +2,7 @@
 
 The library (real Session + recording handler) talks to the scripted peer of harness/internal/b2f/peer.go, which is
 written from the protocol documents and whose free choices (role, SID feature strings, ;FW forms, comments / ;PM / MOTD
-placement, answer alphabet incl. zero-offset accepts, data block sizes 1..256, duplicate MIDs, CMS-style early FQ,
+placement, answer alphabet incl. zero-offset accepts, data block sizes 1..256, duplicate MIDs, CMS-style early FQ - in turn, and the real thing: FQ and hang-up right after its own last block -,
 library-side user agent / callsign case / locator / auxiliary addresses) are drawn per scenario.  Every byte the Session
 emits is lexed by the independent lexer; all units and handler events of both sides are validated by TLC against the
 protocol rules of the monitor B2FProps.tla (handshake grammar, block shape and order, checksums, one answer per proposal,
@@ -29,6 +29,22 @@ def run(ctx):
     rows = vlib.read_ndjson(traces)
     if rejected:
         bc.report_rejections(ctx, "C05", rows, rejected, lambda row: scens[row["scen"] - 1])
+    # CMS-style quits: how many sessions had one, and in how many the library's FF met the closed link (no FF on the wire
+    # after the peer's FQ) - the schedule in which a write error of that pointless FF must not fail the exchange
+    cms = cms_closed = cms_clean = 0
+    for row in rows:
+        evs = row["ev"]
+        k = next((i for i, e in enumerate(evs) if e["op"] == "CmsIntent"), None)
+        if k is None:
+            continue
+        cms += 1
+        if not any(e["op"] == "Unit" and e.get("s") == "A" and e.get("kind") == "FF" for e in evs[k:]):
+            cms_closed += 1
+        if all(e.get("res") == "nil" for e in evs if e["op"] == "Return"):
+            cms_clean += 1
+    if cms == 0 or cms_closed == 0:
+        raise vlib.Undecided("no session with a CMS-style quit whose FF met the closed link was generated (%d, %d)" % (cms, cms_closed))
+    st["cms_style_quits"] = {"sessions": cms, "library_FF_met_closed_link": cms_closed, "both_returned_nil": cms_clean}
     # a conforming peer that rejects what it received is a violation too (PeerReject events are not monitor actions)
     vlib.write_evidence(ctx, "model_checking", {
         "traces_validated_against_impl": acc,
